@@ -353,3 +353,19 @@ Theorem kron_den :
          den r ix = a_at (np_kron V vmul (mkArr (c_shape a) (den a)) (mkArr (c_shape b) (den b))) ix.
 Proof. exact kron_den_proof. Qed.
 Print Assumptions kron_den.
+
+(* ---------------------------------------------------------------------------------------------------------------
+   _dot, COO @ COO: the COO -> CSR row pointers a_indptr / b_indptr (np.cumsum(np.bincount(coords[0])) written into an
+   array whose dtype is READ FROM THE SOURCE, Gen/S_dot.v): they are the exact cumulative counts of stored elements
+   (first 0, last nnz) for every width of the operands' coordinate dtype and any number of stored elements — true
+   because the source allocates them as np.intp; allocated in the coordinate dtype they would wrap once nnz exceeds
+   it.  Likewise every pointer / index / counter array of the product kernels is allocated wide. *)
+Theorem coo_indptr_exact :
+  forall (bits : Z) (signed : bool) (rows : list Z) (n_row : Z),
+    0 <= n_row -> Forall (fun x => 0 <= x < n_row) rows ->
+    let exact := map (prefix_count rows) (zrange (n_row + 1)) in
+    coo_indptr_a bits signed rows n_row = exact /\ coo_indptr_b bits signed rows n_row = exact
+    /\ znth exact 0 (-1) = 0 /\ znth exact n_row (-1) = Z.of_nat (length rows)
+    /\ dot_index_arrays_wide = true.
+Proof. exact coo_indptr_exact_proof. Qed.
+Print Assumptions coo_indptr_exact.
